@@ -19,7 +19,7 @@ from c21 import const_bytes, KECCAK_EMPTY_BYTES
 
 META = {
     'level': 'other',
-    'decides': 'which stored bytes every accessor of every bytecode variant returns, the shape of len/is_empty/hash_slow, that analysis keeps the original length and only appends zero padding, and the EIP-7702 designator layout and decoding guards',
+    'decides': 'which stored bytes every accessor of every bytecode variant returns, the shape of len/is_empty/hash_slow, that analysis keeps the original length and only appends zero padding on every path for raw input (no shortcut results except for empty code), and the EIP-7702 designator layout and decoding guards',
     'does_not_decide': 'keccak256 itself; EOF container decoding (C26)',
     'explanation': 'Match-table extraction per enum variant (partial evaluation), expression shapes, value origins in to_analysed and the EIP-7702 constructors, const evaluation.',
 }
